@@ -269,7 +269,11 @@ PROPS = {
         "rule": "streams: corpus (repository journals); journal (grammar-based layouts: tabs, CRLF, trailing blanks, multi-line descriptions, Unicode account names and digits, "
                 "both addon orders, multi-line assertions, missing final newline); stress (layouts the formatter must normalise: amounts wider than 10, one-balance multi-line "
                 "assertions, annotations before non-transactions, transactions ending at EOF, CR/tab inside directives); mutated (byte-level edits, mostly unparseable); formatted "
-                "(already formatted text); cli (`knut format` on one or two temp files: file bytes afterwards, exit status, no leftover files). Every in-process case: "
+                "(already formatted text); big / bigcli (size: files of hundreds to thousands of directives, transactions of 1-40 bookings, a running count - booking lines, "
+                "directives, transactions, lines, bytes, bytes of one line or field - steered to every power of two or multiple of 32..4096 at a drawn offset inside a transaction, "
+                "multi-line assertion or one-line directive; above a work limit of the list-slicing model the case keeps the monitors, formatOK through its Go mirror c08FormatOK, "
+                "which is compared with the Lean predicate on every case below the limit); cli (`knut format` on one or two temp files: file bytes afterwards, exit status, no "
+                "leftover files; the file left behind parses, keeps fields and gaps, is a fixed point). Every in-process case: "
                 "syntax.FormatFile output vs model output byte for byte; monitors on the real output: it parses, Lean formatOK (same directives/fields by semFlat, gaps equal) on the "
                 "two real trees, formatting again changes nothing; cli: unparseable files untouched. "
                 "flags, flags-infer (harness/c08_cli.go): the flags of `knut format` / `knut infer` are read from `--help` on every run (and pinned to the reviewed surface by FactsAgree/C08); "
